@@ -776,7 +776,8 @@ func rC02Range(w *World, r *Report) {
 		if !ok || j.Block() != b {
 			continue
 		}
-		hi := converterOf(cmp.Y)
+		hiV := resolvePhi(cmp.Y, b) // a bound merged with its error by an inlined helper
+		hi := converterOf(hiV)
 		if hi == nil {
 			continue
 		}
@@ -792,7 +793,7 @@ func rC02Range(w *World, r *Report) {
 				if !ok || bo.Op != token.ADD || bo.X != ssa.Value(j) || k != 1 {
 					problems = append(problems, "step is not +1")
 				}
-			} else if lo := converterOf(e); lo == nil {
+			} else if lo := converterOf(resolvePhi(e, b)); lo == nil {
 				problems = append(problems, "the loop does not start at the converted lower bound")
 			}
 		}
@@ -825,7 +826,7 @@ func rC02Range(w *World, r *Report) {
 				}
 				els, _, _ := elementsOf(c.Call.Args[1], map[ssa.Value]bool{})
 				for _, e := range els {
-					if e == cmp.Y {
+					if e == cmp.Y || e == hiV {
 						return true
 					}
 				}
